@@ -37,7 +37,7 @@ def cases(draw):
     pts = []
     for _ in range(3):
         pts.append([draw(st.integers(-8, 8)) / 2.0 for _ in model["names"]])
-    return {"model": model, "points": pts}
+    return {"model": model, "points": pts, "deep_algorithms": draw(st.integers(0, 4)) == 0}
 
 
 def strategy(tier):
